@@ -1,5 +1,6 @@
 #include "mat.h"
 #include <stdio.h>
+#include <algorithm>
 
 uint32_t
 aes_sched_bytes(unsigned key_len)
@@ -474,7 +475,22 @@ mat_collect(const MatJob &mj, int status, JobOut &o)
         }
         if (mj.obj[O_TAG].valid())
                 o.tag.assign(mj.obj[O_TAG].p, mj.obj[O_TAG].p + mj.obj[O_TAG].len);
+        // PON: the second tag word is the Ethernet CRC, which exists only when PLI > 4 (header comment,
+        // kat-app checks it only then). For PLI <= 4 those 4 bytes are unspecified: not compared.
+        if (mj.spec.cipher == IMB_CIPHER_PON_AES_CNTR && mj.spec.pon_pli <= 4 && o.tag.size() == 8)
+                memset(o.tag.data() + 4, 0, 4);
         o.src_post.assign(mj.src, mj.src + mj.src_len);
+        // DOCSIS CRC32: frames shorter than the minimum Ethernet PDU (IMB_DOCSIS_CRC32_MIN_ETH_PDU_SIZE = 14
+        // bytes before the FCS) are outside the documented assumptions; the repo's own cross-validation
+        // does not check their CRC either. The CRC value (tag and the copy written into the frame) is
+        // therefore not compared for them; everything else about such jobs still is.
+        if (mj.spec.hash == IMB_AUTH_DOCSIS_CRC32 && mj.spec.h_len < 14) {
+                std::fill(o.tag.begin(), o.tag.end(), 0);
+                for (uint32_t i = mj.spec.h_off + mj.spec.h_len; i < mj.spec.h_off + mj.spec.h_len + 4 && i < o.src_post.size(); i++)
+                        o.src_post[i] = 0;
+                if (mj.spec.inplace && !o.dst.empty())
+                        std::fill(o.dst.begin(), o.dst.end(), 0);
+        }
         if (mj.obj[O_NIV].valid())
                 o.niv.assign(mj.obj[O_NIV].p, mj.obj[O_NIV].p + 16);
 }
@@ -506,12 +522,10 @@ src_writable(const MatJob &mj, uint32_t &lo, uint32_t &hi)
                 }
         }
         if (s.cipher == IMB_CIPHER_PON_AES_CNTR) {
-                // HEC in the XGEM header may be rewritten (encrypt), CRC lives inside the ciphered range
+                // in-place only: HEC in the XGEM header and the CRC inside the payload may be rewritten
+                // (encrypt), the payload is ciphered: the whole frame [h_off, h_off+h_len) is writable
                 lo = s.h_off;
-                if (hi < s.c_off + mj.out_len)
-                        hi = s.c_off + mj.out_len;
-                if (hi < s.h_off + 8)
-                        hi = s.h_off + 8;
+                hi = s.h_off + s.h_len;
         }
 }
 
